@@ -129,7 +129,7 @@ func (in *Interp) harnessIntrinsic(g *Goroutine, name string, c *callCtx) (Value
 		return nil, irDone
 	case "verifUnreachable":
 		label, _ := a[0].(*StrV).Concrete()
-		in.reportViolation(Violation{Label: label, Kind: "unreachable", Detail: "reached point declared unreachable: " + label}, in.currentModel())
+		in.reportPathViolation(Violation{Label: label, Kind: "unreachable", Detail: "reached point declared unreachable: " + label})
 		return nil, irDone
 	case "verifCanary":
 		return BoolC(in.canary), irDone
